@@ -114,7 +114,7 @@ func genHistory(t *rapid.T, cfg genCfg) ([]opSpec, map[string]bool) {
 	}
 	limit := int(seg) * cfg.maxBytes
 	for i := 0; i < nops && g.bytes < limit; i++ {
-		kind := rapid.SampledFrom([]string{"save", "save", "save", "save", "save", "save", "commit", "commit", "vote", "snap", "snap", "insnap", "sync", "reopen", "empty"}).Draw(t, "op")
+		kind := rapid.SampledFrom([]string{"save", "save", "save", "save", "save", "save", "commit", "commit", "vote", "snap", "snap", "insnap", "sync", "reopen", "empty", "snapthenstate"}).Draw(t, "op")
 		if g.term == 0 || i == bigAt {
 			kind = "save"
 		}
@@ -198,7 +198,40 @@ func genHistory(t *rapid.T, cfg genCfg) ([]opSpec, map[string]bool) {
 			if o.St == nil && n > 0 {
 				g.labels["entries_without_state"] = true
 			}
+			if n > 0 && i != bigAt && rapid.IntRange(0, 5).Draw(t, "fill") == 0 {
+				// end this Save close to the segment boundary (either side): what the next call
+				// does there - a marker, a state-only Save, a cut - is where file naming and sync
+				// decisions are taken
+				f := rapid.IntRange(-48, 120).Draw(t, "fillTo")
+				o.Fill = &f
+				g.labels["save_sized_to_end_near_segment_boundary"] = true
+			}
 			ops = append(ops, o)
+		case "snapthenstate":
+			// a local snapshot marker (usually behind the last entry) followed at once by a Save that
+			// carries only a hard state: if the tail has outgrown the segment, that Save rolls it, and
+			// the new segment's name is derived from what the marker left behind
+			lastSnap := g.snaps[len(g.snaps)-1].Idx
+			if g.commit <= lastSnap || g.commit < g.first {
+				continue
+			}
+			lo := lastSnap + 1
+			if lo < g.first {
+				lo = g.first
+			}
+			idx := lo + uint64(rapid.IntRange(0, int(g.commit-lo)).Draw(t, "snapAt"))
+			o := opSpec{K: "snap", Idx: idx, Term: g.termOf[idx]}
+			ops = append(ops, o)
+			g.snaps = append(g.snaps, o)
+			g.labels["local_snapshot"] = true
+			if g.commit < g.last && rapid.Bool().Draw(t, "advc") {
+				g.commit += uint64(rapid.IntRange(1, int(g.last-g.commit)).Draw(t, "adv"))
+			} else {
+				g.term += 1
+				g.vote = uint64(rapid.SampledFrom([]int{0, 1, 2, 3}).Draw(t, "vote"))
+			}
+			ops = append(ops, opSpec{K: "save", St: g.stateIfChanged()})
+			g.labels["marker_then_state_only_save"] = true
 		case "snap":
 			lastSnap := g.snaps[len(g.snaps)-1].Idx
 			if g.commit <= lastSnap || g.commit < g.first {
